@@ -453,16 +453,24 @@ func Defer[T any](factory func() Observable[T]) Observable[T] {
 // for each Observer that subscribes to the Observable.
 func Future[T any](factory func() (T, error)) Observable[T] {
 	return NewUnsafeObservableWithContext(func(ctx context.Context, destination Observer[T]) Teardown {
-		go func() {
-			v, err := factory()
-			if err != nil {
-				destination.ErrorWithContext(ctx, err)
-				return
-			}
+		go lo.TryCatchWithErrorValue(
+			func() error {
+				v, err := factory()
+				if err != nil {
+					destination.ErrorWithContext(ctx, err)
+					return nil
+				}
 
-			destination.NextWithContext(ctx, v)
-			destination.CompleteWithContext(ctx)
-		}()
+				destination.NextWithContext(ctx, v)
+				destination.CompleteWithContext(ctx)
+
+				return nil
+			},
+			func(e any) {
+				// a panicking factory must not kill the process
+				destination.ErrorWithContext(ctx, newObservableError(recoverValueToError(e)))
+			},
+		)
 
 		return nil
 	})
